@@ -14,9 +14,20 @@ PROPS = {
         "claim": "every execution of 2-3 concurrent callers + scripted peer (answer/error/unknown id/late answer/EOF/read error) + optional canceller/Close thread/write faults within the deviation budget is run on the real jsonrpc2.Connection and checked against the completion oracle (own payload or an error with a cause that occurred; no blocked caller; late calls fail with the closing error)",
         "note": "assumes race-freedom between scheduling points; bounded to K<=3 callers and budget B<=2/3 deviations from the default schedule; map iteration order canonicalised",
         "parts": [
-            {"pkg": "internal/jsonrpc2", "mode": "instr", "test": "TestVerifC01", "scenario_prefix": "a/"},
+            {"pkg": "mcp", "mode": "instr", "test": "TestVerifC01"},
         ],
         "assumptions": E1_ASSUME + ["at most 3 concurrent calls, one call per caller"],
+    },
+    "C03": {
+        "level": "model_checking",
+        "uses_vsched": True,
+        "technique": "stateless model checking of real client+server sessions under a controlled scheduler: all message sequences (len<=3) x all handler completion orders (gates) x delay-bounded schedules",
+        "claim": "for every sequence of length <=3 over {notification, tool call, ping} client->server and {progress, log, create-message} server->client, with every user handler parked on a gate that an idle-priority controller opens in every order, and every schedule within the deviation budget, the handler of a notification (and of initialized) finishes before any later message's handler starts; a liveness scenario shows calls do overlap",
+        "note": "in-memory transport only in this check (HTTP transports are exercised by C02/C10 harnesses); sequences longer than 3 and budgets beyond B are outside the bound",
+        "parts": [
+            {"pkg": "mcp", "mode": "instr", "test": "TestVerifC03"},
+        ],
+        "assumptions": E1_ASSUME,
     },
     "C20": {
         "level": "model_checking",
